@@ -14,7 +14,11 @@ and is NOT decided.  Decided (MIR, symbolic provenance, dominance):
  (iv)  too many arguments: `TooMany` / `TooManyPos` are built under a `count > formal count` test that is
        taken only when the signature is not variadic;
  (v)   a function returns the first @return it reaches: in ScopeRef::eval_body every nested body
-       evaluation whose result is `Some` is returned at once (no arm evaluates on after a value).
+       evaluation whose result is `Some` is returned at once (no arm evaluates on after a value);
+ (vi)  duplicated arguments are errors: every `insert` into an argument-name map (`OrderMap<Name, _>`)
+       anywhere in the crate has its displaced-value result examined (a discarded result lets a second
+       `$a:` silently replace the first); an insert that copies the entries of another such map is
+       discharged (keys already unique).
 """
 from lib import mir, sym, cfgutil, ast as A
 
@@ -195,3 +199,44 @@ def run(ctx, F):
         ctx.ok("F3-first-return", "eval_body returns a reached @return value at once", {"nested": len(nested)})
     else:
         ctx.fail("F3-first-return", "eval_body returns a reached @return value at once", f"{n_bad} nested body evaluation(s) of ScopeRef::eval_body do not return their `Some` result immediately (or the per-item `if let Some(result) = result {{ return .. }}` is gone): statements after a reached @return would still run", where=eb["path"])
+
+    # ---------------------------------------------------------------- (vi) duplicated arguments
+    import json as _json
+    import re as _re
+    n_ins = 0
+    ordn = {}
+    from lib.keys import fn_key
+    for d in sorted(prog.bodies):
+        b = prog.bodies[d]
+        for bi, t in b.calls():
+            cn = mir.callee_name(t) or ""
+            if not cn.endswith("OrderMap<K, V>>::insert") or (t["callee"].get("gargs") or [""])[0] != "sass::name::Name":
+                continue
+            n_ins += 1
+            base = f"{fn_key(d, prog)}|insert into argument-name map"
+            n = ordn.get(base, 0)
+            ordn[base] = n + 1
+            key = base if n == 0 else f"{base}#{n}"
+            dest = t.get("dest")
+            used = False
+            if dest and not dest[1]:
+                pat = _re.compile(r'"p": \[%d, ' % dest[0])
+                for bi2, si, st in b.stmts():
+                    if st["k"] == "assign" and pat.search(_json.dumps(st["rv"])):
+                        used = True
+                for bi2 in range(len(b.blocks)):
+                    tt = b.blocks[bi2]["term"]
+                    if tt["k"] == "call" and pat.search(_json.dumps(tt["args"])):
+                        used = True
+                    if tt["k"] == "switch" and pat.search(_json.dumps(tt["discr"])):
+                        used = True
+            if used:
+                ctx.ok("F2-duplicate-checked", key, None)
+                continue
+            # discharge: the inserted key comes from iterating another OrderMap<Name, _> (unique already)
+            kt = repr(S.operand(b, t["args"][1])) if len(t["args"]) > 1 else ""
+            if "{closure" in d and _re.search(r"\('param', [23], ", kt) and "try_fold" in "".join(mir.callee_name(t2) or "" for _, t2 in prog.bodies[b.raw["parent"]].calls() if b.raw.get("parent") in prog.bodies):
+                ctx.ok("F2-duplicate-checked", key, "entries of an existing argument map are copied in a fold (keys unique by construction)")
+                continue
+            ctx.fail("F2-duplicate-checked", key, f"the value displaced by this insert into an argument-name map is discarded: a duplicated argument replaces the earlier one instead of raising `Duplicate argument`", where=b.where(bi))
+    ctx.floor("inserts into argument-name maps", n_ins, 4)
